@@ -28,7 +28,7 @@ RULE = (
     "numpy.f, method, numpy.add.reduce / accumulate (axis spelled out, and axis omitted = axis 0) must return model-equal results. "
     "non-trivial = >= 2 elements with different monomials are combined (reduced axis length >= 2 / inner dimension >= 2)."
 )
-LEVEL_TEXT += (" Also drawn: initial= for sum/prod, numpy-integer axes, the axis-omitted ufunc.reduce/accumulate spelling (axis 0), big-integer determinants (entries to 2**30) and integer arrays with fractional diff/ediff1d boundaries.")
+LEVEL_TEXT += (" Also drawn: initial= for sum/prod, numpy-integer axes, the axis-omitted ufunc.reduce/accumulate spelling (axis 0), big-integer determinants (entries to 2**30), determinants of narrow and unsigned integer matrices and integer arrays with fractional diff/ediff1d boundaries.")
 ASSUMPTIONS = [
     "ediff1d's to_begin/to_end have a kind numpy can cast to the array's (same kind, or int into float); diff's prepend/append may have any kind (numpy promotes)",
     "ufunc.reduce/accumulate with the axis omitted reduce along axis 0 (numpy's definition), unlike sum/cumsum whose default is axis=None: the axis-omitted ufunc spelling is compared with the axis=0 result",
@@ -44,6 +44,14 @@ def case_st(draw, only=None):
     fn = only or draw(st.sampled_from(FUNCS))
     call = RECIPES[fn].gen(draw, OG)
     call["fn"] = fn
+    if fn == "det" and call["args"][0]["$p"].get("kind") == "i" and draw(st.booleans()):
+        # entries stored in a narrow or unsigned type: the determinant is still the exact signed sum of products
+        a = call["args"][0]["$p"]
+        if all(abs(int(c)) < 100 for t in a["terms"] for c in t[1]):
+            a["dtype"] = draw(st.sampled_from(["uint64", "uint64", "uint64", "uint8", "uint16", "uint32", "int8", "int16", "int32"]))
+            if a["dtype"].startswith("u"):
+                for t in a["terms"]:
+                    t[1] = [abs(int(c)) for c in t[1]]
     if fn == "ediff1d" and draw(st.sampled_from([0, 1, 1])):
         # boundary values are always present in this half, and of a kind numpy casts into the array's
         a = call["args"][0]["$p"]
